@@ -410,6 +410,44 @@ theorem set_num_frames_idempotent_in_frames (wh : Wh) (a b : BitVec 32) :
     congr 1
     rw [BitVec.add_sub_cancel]
 
+/-! ### the clauses of the property under their own names (corollaries) -/
+
+/-- **riff_size_consistent**: the RIFF chunk size equals the number of bytes that follow the field in a file that
+    consists of the encoded header (whose length `encode` returns) and exactly the declared data:
+    `chunk_size = encodedLength − 8 + data_chunk_size` -/
+theorem riff_size_consistent (prior : Wh) (f : Int) (c r n : Nat) (h : Scope f c r n) (m : Mem) (b sz : Nat)
+    (h1 : hlen f ≤ sz) (hsz : sz < 2147483648) :
+    ((made prior f c r n).chunkSize.toNat : Int) =
+      (encode (made prior f c r n) m b sz).2 - 8 + (made prior f c r n).dataChunkSize.toNat := by
+  have e := (encode_decode_id prior f c r n h m b sz sz h1 (Nat.le_refl _) hsz).1
+  have d := (describes_file prior f c r n h).2.2.2.2.2.2
+  rw [e, d]
+  have : 8 ≤ hlen f := by unfold hlen; split <;> omega
+  omega
+
+/-- **data_size**: data size = frames × block alignment -/
+theorem data_size (prior : Wh) (f : Int) (c r n : Nat) (h : Scope f c r n) :
+    (made prior f c r n).dataChunkSize.toNat = n * (made prior f c r n).blockAlign.toNat := by
+  obtain ⟨_, _, hb, _, _, hd, _⟩ := describes_file prior f c r n h
+  rw [hd, hb]
+
+/-- **block_align**: block alignment = channels × sample width -/
+theorem block_align (prior : Wh) (f : Int) (c r n : Nat) (h : Scope f c r n) :
+    (made prior f c r n).blockAlign.toNat = (made prior f c r n).numChannels.toNat * width f := by
+  obtain ⟨hc, _, hb, _⟩ := describes_file prior f c r n h
+  rw [hb, hc]
+
+/-- **byte_rate**: byte rate = sample rate × block alignment -/
+theorem byte_rate (prior : Wh) (f : Int) (c r n : Nat) (h : Scope f c r n) :
+    (made prior f c r n).byteRate.toNat = (made prior f c r n).sampleRate.toNat * (made prior f c r n).blockAlign.toNat := by
+  obtain ⟨_, hr, hb, hbr, _⟩ := describes_file prior f c r n h
+  rw [hbr, hr, hb]
+
+/-- **bits**: bits per sample = 8 × sample width -/
+theorem bits (prior : Wh) (f : Int) (c r n : Nat) (h : Scope f c r n) :
+    (made prior f c r n).bitsPerSample.toNat = 8 * width f :=
+  (describes_file prior f c r n h).2.2.2.2.1
+
 /-! ### decode then encode -/
 
 /-- the `L` header bytes at `b` as re-encoding writes them: identical, except that a format-chunk extension the
